@@ -18,7 +18,8 @@ RULE = (
     "reads, several polyphase blocks, several contigs; polyphase also with a sample heterozygous everywhere whose reads reach only "
     "part of the contig, and with a partially pre-phased input under --use-prephasing) and, for hapcut2vcf / find_snv_candidates, on the "
     "repository's tests/data. Sweeps per input: PYTHONHASHSEED in {0,1,2,3,random,random}, plus polyphase --threads {1,2,3} with "
-    "seeded random delays injected into phase_single_block_mt, haplotag --output-threads {1,2,4}, and one plain repetition. Oracle: "
+    "seeded random delays injected into phase_single_block_mt, haplotag --output-threads {1,2,4}, and one repetition that writes to "
+    "paths at which the outputs of the first run already exist. Oracle: "
     "all output files of all runs of one input must be identical after dropping the recorded command line (##commandline, @PG CL) "
     "— VCF/TSV text, gz decompressed, BAM records via pysam. Evidence of reach: distinct iteration orders of a probe set of the "
     "sample names and distinct polyphase block completion orders are counted. Non-trivial: an input whose runs saw >=2 distinct "
@@ -78,6 +79,13 @@ def build_input(kind, rng, tmp):
              "depth": rng.choice([4, 8]) if kind != "phase_quartet" else 12, "read_len": (150, 600), "error_rate": 0.03, "het_prob": 0.8,
              "qual_mode": "const", "recomb_prob": 0.05}
         sim = genome.simulate(rng, tmp, p)
+        if ped and kind != "genotype" and rng.random() < 0.5:
+            # nothing to phase on the first contig: every genotype homozygous reference there
+            for r in sim.doc.records:
+                if r["chrom"] == sim.chroms[0]:
+                    for call in r["calls"]:
+                        call["GT"] = "0/0"
+            sim.doc.write(sim.vcf)
 
         def make(outdir):
             out = os.path.join(outdir, "out.vcf")
@@ -154,9 +162,10 @@ def build_input(kind, rng, tmp):
         if mode == "prephased":
             # a partial pre-phasing in the input (some heterozygous variants left unphased), used with --use-prephasing
             doc, _ = genome.truth_phased_doc_poly(sim, rng, block_len=(4, 12))
+            raw = rng.choice([None, 0, 1])  # optionally one sample without any pre-phasing next to a pre-phased one
             for r in doc.records:
-                for call in r["calls"]:
-                    if "|" in call["GT"] and rng.random() < 0.4:
+                for ci, call in enumerate(r["calls"]):
+                    if "|" in call["GT"] and (ci == raw or rng.random() < 0.4):
                         call["GT"] = "/".join(sorted(call["GT"].split("|")))
                         call["PS"] = "."
             vcf_in = os.path.join(tmp, "prephased.vcf")
@@ -232,10 +241,16 @@ def run_case(idx, rng, tier, lane):
             variants += [("hs%d" % k, {"PYTHONHASHSEED": str(k)}, []) for k in (4, 5)]
         probe_out = os.path.join(tmp, "probe.jsonl")
         results = {}
+        first_outdir = None
         for label, env, extra in variants:
             outdir = os.path.join(tmp, "run_" + label.replace("#", "_"))
             os.makedirs(outdir)
             args, outs = make(outdir)
+            if label == "repeat" and first_outdir:
+                # a repeated execution with the same output paths: the files of the first run are already there
+                for fn in os.listdir(first_outdir):
+                    shutil.copy(os.path.join(first_outdir, fn), os.path.join(outdir, fn))
+            first_outdir = first_outdir or outdir
             env = dict(env)
             env["WV_PROBE"] = ",".join(probe_names)
             rc, stdout, err = run_cmd(args[:1] + extra + args[1:], env, probe_out)
